@@ -1,19 +1,20 @@
 """Copy verified seeds from /tmp/wt/<id>/_seed/{A,B} into /verif/seeded/<id>-<A|B>/ with meta.json.
-usage: collect_seeds.py <verify log> C01 C02 ..."""
+usage: collect_seeds.py <verify log> C01 S02 ...   (worktree Snn = round 2 of property Cnn, variants C/D)"""
 import json, os, re, shutil, sys
 log = open(sys.argv[1]).read()
 res = {}
-for m in re.finditer(r"^(C\d\d)/([AB]): clean_rc=(\d+) patched_rc=(\d+) suite='([^']*)' failedset=(\w+) base=(\w+)", log, re.M):
+for m in re.finditer(r"^([CS]\d\d)/([A-D]): clean_rc=(\d+) patched_rc=(\d+) suite='([^']*)' failedset=(\w+) base=(\w+)", log, re.M):
     res[(m.group(1), m.group(2))] = m.groups()[2:]
-for pid in sys.argv[2:]:
-    for v in 'AB':
-        src = f'/tmp/wt/{pid}/_seed/{v}'
-        if (pid, v) not in res or not os.path.exists(src + '/patch.diff'):
+for wt in sys.argv[2:]:
+    pid = 'C' + wt[1:]
+    for v in ('AB' if wt[0] == 'C' else 'CD'):
+        src = f'/tmp/wt/{wt}/_seed/{v}'
+        if (wt, v) not in res or not os.path.exists(src + '/patch.diff'):
             print('skip', pid, v); continue
-        clean_rc, patched_rc, suite, fs, base = res[(pid, v)]
+        clean_rc, patched_rc, suite, fs, base = res[(wt, v)]
         ok = clean_rc == '0' and patched_rc == '1' and fs == base and '815 passed' in suite and '12 failed' in suite
         if not ok:
-            print('NOT CONFIRMED', pid, v, res[(pid, v)]); continue
+            print('NOT CONFIRMED', pid, v, res[(wt, v)]); continue
         dst = f'/verif/seeded/{pid}-{v}'
         os.makedirs(dst, exist_ok=True)
         for f in ('patch.diff', 'demo.py', 'notes.md'):
@@ -25,7 +26,7 @@ for pid in sys.argv[2:]:
             'origin': 'independent sub-agent given only the property text and a scratch worktree of /repo HEAD 4965b20',
             'needs_to_manifest': 'see notes.md (written by the sub-agent): ' + ' '.join(notes.split())[:600],
             'confirmed_by_me': {
-                'how': f'tools/verify_seeds.sh in the scratch worktree /tmp/wt/{pid}: demo.py on the clean tree, git apply patch.diff, demo.py again, full pytest suite, git checkout',
+                'how': f'tools/verify_seeds.sh in the scratch worktree /tmp/wt/{wt}: demo.py on the clean tree, git apply patch.diff, demo.py again, full pytest suite, git checkout',
                 'demo_exit_clean_tree': int(clean_rc), 'demo_exit_with_patch': int(patched_rc),
                 'suite_with_patch': suite, 'failing_test_set_equals_baseline': fs == base,
             },
